@@ -191,7 +191,11 @@ def run(ctx):
     # ---- R14.5 deadpool-runtime --------------------------------------------------------------------------------------
     sb = prog.body('deadpool_runtime::Runtime::spawn_blocking::{closure#0}')
     sbb = prog.body('deadpool_runtime::Runtime::spawn_blocking_background')
-    for b, nm in ((sb, 'spawn_blocking'), (sbb, 'spawn_blocking_background')):
+    rtc = prog.crates.get('deadpool_runtime')
+    no_tokio = rtc is not None and 'tokio_1' not in rtc.features
+    if no_tokio:
+        ctx.undecide('R14.5', 'deadpool-runtime was compiled without the tokio_1 feature in this configuration (no Tokio1 arm to analyse)')
+    for b, nm in (() if no_tokio else ((sb, 'spawn_blocking'), (sbb, 'spawn_blocking_background'))):
         if b is None:
             ctx.undecide('R14.5', 'deadpool_runtime::Runtime::%s not extracted' % nm); continue
         ctx.saw(b)
@@ -200,7 +204,7 @@ def run(ctx):
         inv = user_fn_invocations(prog, b)
         ok = len(tk) == 1 and not inv and any(s[0] in ('upvar', 'arg') and s[1].startswith('f') for s in sources(ban, tk[0].term.args[0]))
         ctx.ob('R14.5', 'Tokio1: %s passes the closure uninvoked to tokio::task::spawn_blocking' % nm, ok, ctx.where(b), '', construct='runtime:' + nm)
-    if sb is not None:
+    if sb is not None and not no_tokio:
         maps = [cb for blk, cb in closure_args_of(prog, sb, ['std::result::Result::map_err'])]
         made = [s.rv.j['variant'] for cb in maps for blk in cb.blocks for s in blk.stmts if s.kind == 'assign' and s.rv.kind == 'agg' and s.rv.j.get('adt') == 'deadpool_runtime::SpawnBlockingError']
         ctx.ob('R14.5', 'a join error maps to SpawnBlockingError::Panic', made == ['Panic'], ctx.where(sb), str(made), construct='runtime:join-error')
